@@ -41,7 +41,9 @@ OPTS = {
 }
 
 LAM_BRANCH = [-1.0, -0.5, 0.0, 1e-11, -1e-11, 1e-9, -1e-9, 0.2, 1.0, 2.0, 3.0]
-LAM_YJ_EXTRA = [2 - 1e-9, 2 + 1e-9, 2 - 1e-4, 2 + 1e-4]
+LAM_YJ_EXTRA = [2 - 1e-9, 2 + 1e-9, 2 - 1e-4, 2 + 1e-4,
+                # either side of where a numpy.isclose-style branch test (atol 1e-8, rtol 1e-5) switches near 0 and near 2
+                5e-9, -5e-9, 2e-8, -2e-8, 2 - 1e-6, 2 + 1e-6, 2 - 1e-5, 2 + 1e-5, 2 - 1.9e-5, 2 + 1.9e-5, 2 - 2.2e-5, 2 + 2.2e-5]
 LAM_THOROUGH = [-0.9, -0.1, -1e-3, 1e-3, 0.5, 1.5, 2.5]
 LAM_MANLY = [-5.0, -1.0, -0.5, -1e-3, 0.0, 1e-11, -1e-11, 1e-10, 1e-9, -1e-9,
              1e-3, 0.1, 0.2, 1.0, 2.0, 3.0, 5.0]
@@ -267,7 +269,9 @@ def conditioned(cls, p, x):
             w = p["nu"] + p["scale"] * x
             e = np.where(w >= 0, p["lam"] * np.log1p(np.abs(w)),
                          (2 - p["lam"]) * np.log1p(np.abs(w)))
-            return np.abs(e) <= LOGCOND
+            # far from the overflow edge: near a branch exponent the implementation may use the limiting log
+            # form, whose pre-images exp(|y|) overflow slightly earlier than the power form's ("well conditioned")
+            return (np.abs(e) <= LOGCOND) & (np.abs(w) <= 1e150) & (np.abs(x) <= 1e150)
         if cls == "LogSinh":
             a, b = math.exp(p["loga"]), math.exp(p["logb"])
             return a + b * x / p["xmax"] >= 1e-4
